@@ -492,6 +492,24 @@ def exec_stdio_routed_case(ctx, case: Dict[str, Any]) -> None:
                 # (in later rounds this registration follows the previous receive() without any checkpoint in between)
                 recv = client.new_request_stream(key_of(rid))
                 await client.send_json(create_request("tools/call", {"tag": tag}, id=rid))
+                if case.get("wait") == "slices":
+                    # the caller waits the way send_message does: in short slices until its deadline (each slice that
+                    # ends without a message is a cancelled receive())
+                    t_end = asyncio.get_running_loop().time() + TIMEOUT
+                    outcomes[key] = ("nothing", None)
+                    while asyncio.get_running_loop().time() < t_end:
+                        with anyio.move_on_after(0.004):
+                            try:
+                                outcomes[key] = ("got", await recv.receive())
+                            except BaseException as e:  # noqa
+                                if isinstance(e, (KeyboardInterrupt, SystemExit, asyncio.CancelledError)):
+                                    raise
+                                outcomes[key] = ("raise", e)
+                        if outcomes[key][0] != "nothing":
+                            break
+                    if outcomes[key][0] == "nothing":
+                        break
+                    continue
                 with anyio.move_on_after(TIMEOUT) as scope:
                     try:
                         outcomes[key] = ("got", await recv.receive())
@@ -675,6 +693,11 @@ def run(ctx):
                     case["registration"] = reg
                 if ctx.mine() and (n < 4 or perm[0] in (1, 3)):
                     exec_stdio_routed_case(ctx, case)
+    for n in (2, 3):
+        for perm in itertools.permutations(range(n)):
+            case = {"n": n, "perm": list(perm), "connections": 1, "ids": "str", "wait": "slices", "via": "stdio_routed"}
+            if ctx.mine():
+                exec_stdio_routed_case(ctx, case)
     for payload in ({}, [], 0, "", False, 0.0):
         for n, perm in ((1, [0]), (2, [0, 1]), (3, [2, 0, 1])):
             case = {"n": n, "perm": perm, "connections": 1, "ids": ("str", "int")[n % 2], "payload": payload, "via": "stdio_routed"}
